@@ -49,6 +49,8 @@ OVERLAY = {
     "sim/frame.rs": "sim__frame.rs",
     "sim/device.rs": "sim__device.rs",
     "sim/device/timer.rs": "sim__device__timer.rs",
+    "sim/device/keyboard.rs": "sim__device__keyboard.rs",
+    "sim/device/display.rs": "sim__device__display.rs",
     "sim/debug.rs": "sim__debug.rs",
     "sim/observer.rs": "sim__observer.rs",
 }
@@ -106,12 +108,32 @@ def walk(d, suffixes=None):
     return out
 
 
+def repo_key():
+    """Identifies the state of /repo's working tree (sources + manifests)."""
+    paths = walk(os.path.join(REPO, "src"))
+    paths += [os.path.join(REPO, "Cargo.toml"), os.path.join(REPO, "Cargo.lock")]
+    return sha256_files(paths)
+
+
 def tree_key():
     paths = walk(os.path.join(REPO, "src"))
     paths += [os.path.join(REPO, "Cargo.toml"), os.path.join(REPO, "Cargo.lock")]
     paths += walk(KANI_DIR) + walk(VERUS_DIR) + walk(os.path.join(VERIF, "vlib"), (".py",))
     paths += [os.path.join(VERIF, "obligations.json")]
     return sha256_files(paths)
+
+
+def obligation_key(o, rkey):
+    """Cache key of one obligation: the repository tree, the harness files this obligation is built from
+    (its module and the modules that one uses / its Verus unit), the runner, and the obligation record."""
+    if o["engine"] == "kani":
+        files = [os.path.join(KANI_DIR, m) for m in modules_closure([o["module"]])]
+    else:
+        files = [os.path.join(VERUS_DIR, f) for f in sorted(os.listdir(VERUS_DIR)) if f.startswith(o["unit"] + ".")]
+    files += walk(os.path.join(VERIF, "vlib"), (".py",))
+    h = hashlib.sha256()
+    h.update(rkey.encode()); h.update(sha256_files(files).encode()); h.update(json.dumps(o, sort_keys=True).encode())
+    return h.hexdigest()[:32]
 
 
 def load_registry():
@@ -543,13 +565,14 @@ def run_property(prop, tier, seed):
     canaries = [o for o in reg["obligations"] if o.get("canary")]
     engines = {o["engine"] for o in obls}
     canaries = [c for c in canaries if c["engine"] in engines]
-    key = tree_key()
-    cache = os.path.join(CACHE_DIR, key[:24])
+    key = repo_key()
+    cache = CACHE_DIR
     os.makedirs(cache, exist_ok=True)
+    okey = {o["id"]: obligation_key(o, key) for o in obls + canaries}
     results = {}
     todo = []
     for o in obls + canaries:
-        cp = os.path.join(cache, o["id"] + ".json")
+        cp = os.path.join(cache, okey[o["id"]] + ".json")
         if os.path.exists(cp) and not os.environ.get("VERIF_NOCACHE"):
             try:
                 results[o["id"]] = json.load(open(cp))
@@ -604,7 +627,7 @@ def run_property(prop, tier, seed):
         for o in todo:
             r = results[o["id"]]
             if r.get("status") in ("discharged", "refuted"):
-                with open(os.path.join(cache, o["id"] + ".json"), "w") as f:
+                with open(os.path.join(cache, okey[o["id"]] + ".json"), "w") as f:
                     json.dump(r, f)
 
         # ---- verdict
